@@ -155,7 +155,7 @@ def run_case(case):
         acc.evals += 1
         steps = [e for e in trace if 'step' in e]
         acc.count('trace:steps_recorded', len(steps))
-        if status != SUCCESS or rc != 0:
+        if status is None or SUCCESS not in status or rc != 0:
             raise RuntimeError(f'clean run did not report success (rc={rc}, status={status!r}, hung={hung}) for {cfg}: inconclusive')
         ok, why = verify_output(out, expect)
         if not ok:
